@@ -28,6 +28,66 @@ def pairProbe (a b : List Char) : String :=
   let next := ((offs.find? fun kv => kv.1 == partitionKey b 0).map (·.2)).getD 0
   s!"pair a=accept b=accept del=true next={next} nerr=true"
 
+/-! ### `delfam`: the delete-selector scenario (harness/C22/root/cmd/broker/zz_verif_c22_delfam.go) -/
+
+def keyHash (k : List Char) : Nat := k.foldl (fun h c => (h * 131 + c.toNat) % 1000000007) 7
+
+def insStr (x : String) : List String → List String
+  | [] => [x]
+  | y :: r => if x < y then x :: y :: r else y :: insStr x r
+
+def sortStrs (l : List String) : List String := l.foldr insStr []
+
+def joinOrDash (l : List String) : String := if l.isEmpty then "-" else joinWith "," (sortStrs l)
+
+/-- The etcd keys the set-up phase of topic `i` writes (owner = `i`): next offsets of partitions 0..n, the
+config, the partition-state key of the added partition n, the commits of every group to partitions 0 and n. -/
+def famKeys (groups : List (List Char)) (t : List Char) (n : Nat) : List (List Char) :=
+  ((List.range (n + 1)).map fun p => offsetKey t (p : Nat)) ++ [topicConfigKey t, partitionStateKey t (n : Nat)] ++
+  (groups.flatMap fun g => [consumerOffsetKey g t 0, consumerOffsetKey g t (n : Nat)])
+
+def delfamLine (fixed : Bool) (victim : List Char) (groups : List (List Char)) (topics : List (List Char × Nat)) : String :=
+  match topics.find? (fun t => !accepted t.1) with
+  | some t => s!"delfam rej={hx t.1} store=0"
+  | none =>
+  let sel (k : List Char) : Bool := if fixed then topicDeleteSel victim k || coffDeleteSelFixed victim k else etcdDeleteSel victim k
+  let idx := topics.zipIdx
+  let owned : List (List Char × String × Bool) :=      -- key, owner label, owner is the victim
+    (groups.map fun g => (consumerGroupKey g, "G", false)) ++
+    idx.flatMap fun (t, i) => (famKeys groups t.1 t.2).map fun k => (k, toString i, t.1 == victim)
+  let deleted := owned.filter fun e => sel e.1
+  let sum := deleted.foldl (fun a e => (a + keyHash e.1) % 1000000007) 0
+  let lost := (deleted.filter fun e => !e.2.2).map fun e => hx e.1 ++ "@" ++ e.2.1
+  let left := (owned.filter fun e => e.2.2 && !sel e.1).map fun e => hx e.1
+  let nkeys := (owned.filter fun e => e.2.2).length
+  let gidx := groups.zipIdx
+  let others := idx.filter fun (t, _) => t.1 != victim
+  let apiM := others.flatMap fun (t, i) =>
+    ((List.range (t.2 + 1)).filterMap fun p => if memOffDeleteSel victim (partitionKey t.1 (p : Nat)) then some s!"{i}:no:{p}" else none) ++
+    gidx.flatMap fun (g, gi) => [0, t.2].filterMap fun p =>
+      if memCoffDeleteSel victim (g, t.1, (p : Nat)) then some s!"{i}:co:{gi}:{p}" else none
+  let apiE := (others.flatMap fun (t, i) =>
+    ((List.range (t.2 + 1)).filterMap fun p => if sel (offsetKey t.1 (p : Nat)) then some s!"{i}:no:{p}" else none) ++
+    (if sel (topicConfigKey t.1) then [s!"{i}:cfg"] else []) ++
+    gidx.flatMap fun (g, gi) => [0, t.2].filterMap fun p =>
+      if sel (consumerOffsetKey g t.1 (p : Nat)) then some s!"{i}:co:{gi}:{p}" else none) ++
+    gidx.filterMap fun (g, gi) => if sel (consumerGroupKey g) then some s!"G:grp:{gi}" else none
+  let vt := topics.filter fun t => t.1 == victim
+  let staleM := vt.flatMap fun t => gidx.flatMap fun (g, gi) => [0, t.2].filterMap fun p =>
+    if memCoffDeleteSel victim (g, t.1, (p : Nat)) then none else some s!"co:{gi}:{p}"
+  let staleE := vt.flatMap fun t => gidx.flatMap fun (g, gi) => [0, t.2].filterMap fun p =>
+    if sel (consumerOffsetKey g t.1 (p : Nat)) then none else some s!"co:{gi}:{p}"
+  s!"delfam dM=ok dE=ok nkeys={nkeys} del={deleted.length}:{sum} lostE={joinOrDash lost} leftE={joinOrDash left} " ++
+  s!"apiM={joinOrDash apiM} apiE={joinOrDash apiE} staleM={joinOrDash staleM} staleE={joinOrDash staleE}"
+
+def parseFam (victim groups topics : String) : Option (List Char × List (List Char) × List (List Char × Nat)) := do
+  let v ← unhx victim
+  let gs ← (groups.splitOn ",").mapM unhx
+  let ts ← (topics.splitOn ";").mapM fun sp => match sp.splitOn ":" with
+    | [n, p] => do pure ((← unhx n), (← p.toNat?))
+    | _ => none
+  pure (v, gs, ts)
+
 def stepLine (u : Unit) (ws : List String) : Unit × String :=
   match ws with
   | ["accept", t] => match unhx t with
@@ -39,6 +99,10 @@ def stepLine (u : Unit) (ws : List String) : Unit × String :=
   | ["pair", a, b] => match unhx a, unhx b with
     | some a, some b => (u, pairProbe a b)
     | _, _ => (u, "bad-op")
+  | ["delfam", v, gs, ts] => match parseFam v gs ts with
+    -- first the prediction for HEAD's selectors, then for the end-anchored selector of the proposed fix
+    | some (v, gs, ts) => (u, delfamLine false v gs ts ++ " || " ++ delfamLine true v gs ts)
+    | none => (u, "bad-op")
   | ["clean", p] => match unhx p with
     | some p => (u, "clean " ++ hx (pathClean p))
     | none => (u, "bad-op")
